@@ -42,6 +42,14 @@ REFS = [
     ("20 * measured.si.Micro * measured.si.Pascal", "measured.us.PSI", 2),
     ("1 * measured.si.Meter / measured.si.Second", "(measured.us.Foot / measured.si.Second)", 2),
     ("1 * measured.si.Ampere", "measured.si.Ampere", 2),
+    # the other root-power (field) quantities: field strength and the charge densities
+    ("1 * (measured.si.Micro * measured.si.Volt) / measured.si.Meter", "(measured.si.Volt / measured.si.Meter)", 2),
+    ("1 * measured.si.Coulomb / measured.si.Meter", "(measured.si.Coulomb / measured.si.Meter)", 2),
+    ("1 * measured.si.Coulomb / measured.si.Meter**2", "(measured.si.Coulomb / measured.si.Meter**2)", 2),
+    ("1 * measured.si.Coulomb / measured.si.Meter**3", "(measured.si.Coulomb / measured.si.Meter**3)", 2),
+    # and power-like quantities that are not in any list: energy, power spectral density
+    ("1 * measured.si.Joule", "measured.si.Joule", 1),
+    ("1 * measured.si.Watt / measured.si.Hertz", "(measured.si.Watt / measured.si.Hertz)", 1),
     ("440 * measured.si.Hertz", "measured.si.Hertz", 1),
     ("2 * measured.si.Watt", "measured.energy.Horsepower", 1),
 ]
@@ -274,6 +282,9 @@ def tasks_for(tier: str) -> List[List[Tuple]]:
     names = list(LOGS) if tier == "thorough" else ["bel", "decibel", "neper", "octave", "semitone", "centibel", "base3"]
     refs = REFS if tier == "thorough" else REFS[:9]
     cfgs = [(ln_, rc, qc, k) for ln_ in names for (rc, qc, k) in refs]
+    if tier != "thorough":
+        # every reference dimension of the physical classification, under two families
+        cfgs += [(ln_, rc, qc, k) for ln_ in ("decibel", "neper") for (rc, qc, k) in REFS[9:]]
     return [ch for ch in par.chunks(cfgs, 32)]
 
 
